@@ -408,7 +408,9 @@ func gen(tier string, seed uint64) []runner.Scenario {
 			i, sh := i, sh
 			held := i%4 == 3 && sh.name != "unary"
 			id := fmt.Sprintf("%s/%d", sh.name, i)
-			out = append(out, runner.Scenario{ID: id, Run: func() runner.Result { return scenario(id, payload.Hash(seed, 0xC01, uint64(i), uint64(len(sh.name))), sh, held) }})
+			out = append(out, runner.Scenario{ID: id, Run: func() runner.Result {
+				return scenario(id, payload.Hash(seed, 0xC01, uint64(i), uint64(len(sh.name))), sh, held)
+			}})
 		}
 	}
 	return out
